@@ -9,8 +9,8 @@
 -/
 import FcModel.Merge
 import FcModel.StructuredMerge
-namespace Fc.Spec
-open Fc
+namespace Fc.C06.Spec
+open Fc Fc.C06
 
 /-- equal up to reordering (collections with multiplicity) -/
 def sameContent (a b : MeshFields) : Bool :=
@@ -83,4 +83,4 @@ def wholeField {α} (n : Nat) (G : Nat → α) : List α := (List.range n).map G
 def restrictField {α} (isPoint : Bool) (d : List (List Nat)) (G : Nat → α) (loc : List Nat) : List α :=
   (pieceEntityIndices isPoint d loc).map G
 
-end Fc.Spec
+end Fc.C06.Spec
